@@ -26,6 +26,40 @@ def _reencode(cd, b: bytes, what: str):
                       f"{cd.path}: decoder returned {v!r} for {b.hex()} but the encoder raised {e!r}")
 
 
+def tolerated_variant(cd, tree):
+    """-> (relaxed description, tree, changed): every EMPTY array in a non-nullable array field replaced by a null array.
+    Not conforming, but kio's decoder accepts it (it returns None for a null array in any array field), which makes it
+    "accepted input" in the sense of the property's second and third sentence."""
+    from ..c19_orders import relaxed
+    from ..refcodec import Present
+
+    changed = False
+
+    def walk(c, t):
+        nonlocal changed
+        out = {}
+        for k, v in t.items():
+            f = next((x for x in c.fields if x.name == k), None)
+            if f is None:  # the unknown-tags entry
+                out[k] = v
+                continue
+            inner = v.value if isinstance(v, Present) else v
+            wrap = (lambda x: Present(x)) if isinstance(v, Present) else (lambda x: x)
+            if f.array and not f.nullable and inner == []:
+                changed = True
+                out[k] = wrap(None)
+            elif f.kind == "struct" and isinstance(inner, dict):
+                out[k] = wrap(walk(f.struct, inner))
+            elif f.kind == "struct" and isinstance(inner, list):
+                out[k] = wrap([walk(f.struct, i) for i in inner])
+            else:
+                out[k] = v
+        return out
+
+    t2 = walk(cd, tree)
+    return relaxed(cd), t2, changed
+
+
 def check(cd, tree, extra):
     out = []
     canon = canonicalize(cd, tree)
@@ -54,6 +88,32 @@ def check(cd, tree, extra):
         out.append(fail)
     elif b11 != b1:
         out.append(("not-idempotent", f"{cd.path}: input {nb.hex()}\n pass1 {b1.hex()}\n pass2 {b11.hex()}"))
+    # input that is not conforming but tolerated by the decoder: if it is accepted, the result must be encodable and
+    # decode->encode must be idempotent on it as well
+    rcd, ttree, changed = tolerated_variant(cd, tree)
+    if changed:
+        from ..refcodec import RefEncodeError
+        from ..treeprop import note
+
+        try:
+            tb = ref_encode(rcd, ttree)
+        except RefEncodeError:
+            return out
+        try:
+            K.decode(cd.cls, tb)
+        except Exception:
+            note("tolerated_variant_rejected")  # not "accepted input": nothing to demand
+            return out
+        note("tolerated_variant_accepted")
+        t1, fail = _reencode(cd, tb, "tolerated")
+        if fail:
+            out.append(fail)
+            return out
+        t11, fail = _reencode(cd, t1, "tolerated-second-pass")
+        if fail:
+            out.append(fail)
+        elif t11 != t1:
+            out.append(("tolerated-not-idempotent", f"{cd.path}: input {tb.hex()}\n pass1 {t1.hex()}\n pass2 {t11.hex()}"))
     return out
 
 
@@ -78,7 +138,7 @@ SPEC = TreeSpec(
         "whose Python representation is lossy-prone (non-zero ms timestamps, |duration|>2^53 ms, -0.0, NaN payloads, "
         "32767-byte strings, zero/non-zero UUIDs, integer limits). (a) canonicalised tree -> reference bytes b -> "
         "kio decode -> kio encode must equal b; (b) the non-canonical conforming encoding of the same tree is "
-        "decoded and re-encoded twice: second pass must equal first (idempotence) and no call may raise."
+        "decoded and re-encoded twice: second pass must equal first (idempotence) and no call may raise; (c) a tolerated non-conforming variant (every empty array of a non-nullable array field sent as a null array): if the decoder accepts it, the result must be encodable and idempotent likewise."
         " Non-trivial = tree holds >=1 lossy-prone value; distinct by hash."
     ),
     profile=WIRE_CONFORMING,
